@@ -1,7 +1,7 @@
 """C18 — state-vector sync (DESIGN §4 C18)."""
 import ast
 
-from .common import ctx, returns, calls_in_ctx, reach_from_succ, site, srcs_text, escape_check, self_attr, bound_args
+from .common import ctx, returns, calls_in_ctx, reach_from_succ, site, srcs_text, escape_check, self_attr, bound_args, explore, alias_text, call_arg
 from ..flow import callee_attr
 from ..loader import AnalysisError, norm
 
@@ -59,7 +59,7 @@ def run(R):
                site(sh, sh.f.node))
     else:
         t = tests[0]
-        lab = lt_edge(t.ast, lambda e: ast.unparse(e) == 'self.self_seq', lambda e: isinstance(e, ast.Name))
+        lab = lt_edge(t.ast, lambda e: ast.unparse(e) == 'self.self_seq', lambda e: isinstance(e, ast.Name) or (isinstance(e, ast.Attribute) and e.attr == 'seq_no'))
         idt = [x for x in sh.cfg.nodes if x.kind == 'test' and 'self.self_node_id' in ast.unparse(x.ast)]
         probs = []
         if lab is None:
@@ -69,8 +69,13 @@ def run(R):
             rets = [x for x in returns(sh) if x.id in r]
             writes = state_writes(sh)
             # the guarded edge must lead straight to a return without touching state
-            before_ret = reach_from_succ(sh.cfg, t, lab, removed_nodes={x.id for x in rets}, follow_exc=False)
-            if not rets or sh.cfg.exit.id in before_ret or any(w.id in before_ret for w in writes):
+            # followed path-sensitively (a helper may hand the verdict back as None, tested by the caller right after)
+            before_ret = set()
+            for (s0, l0) in t.succ:
+                if l0 == lab:
+                    before_ret |= explore(sh, lambda e: None, start=s0, stop={x.id for x in rets})
+            before_ret -= {x.id for x in rets}
+            if not rets or sh.cfg.falloff.id in before_ret or any(w.id in before_ret for w in writes):
                 probs.append(('the over-claiming vector is not dropped (no immediate return)', t.ast))
             # no state write can precede the guard
             for w in writes:
@@ -219,7 +224,8 @@ def run(R):
         falses = [n for (n, v) in defs if v is False]
         trues = [n for (n, v) in defs if v is True]
         if len(supp) != 1 or len(falses) != 1 or len(trues) != 2:
-            probs.append((f'unexpected shape: {len(supp)} state tests, necessary=False x{len(falses)}, =True x{len(trues)}', ot.f.node))
+            raise AnalysisError(f'on_timer: the end-of-suppression decision is not in the recognised flag-and-scan form ({len(supp)} state tests, '
+                                f'flag=False x{len(falses)}, =True x{len(trues)}); an any()/all() over the vector is not read')
         else:
             if falses[0].id in ot.cfg.reachable(removed_edges={(supp[0].id, True)}):
                 probs.append(('in steady state the periodic sync Interest can be suppressed', falses[0].ast))
@@ -291,15 +297,25 @@ def run(R):
     else:
         k, v = [ast.unparse(e) for e in loops[0].ast.target.elts]
         body = ast.unparse(loops[0].ast)
-        if f'node_id = enc.Name.from_bytes({k})' not in body or f'seq_no = {v}' not in body or 'entries.append(cur)' not in body:
+        import re as _re
+        if f'node_id = enc.Name.from_bytes({k})' not in body or f'seq_no = {v}' not in body or not _re.search(r'\.append\(\w+\)', body):
             probs.append('entries are not built from (node id, sequence number) of local_sv')
+        else:
+            # the list the entries are appended to is the one stored as the vector's entries
+            apps_ = [c for c in ast.walk(loops[0].ast) if isinstance(c, ast.Call) and callee_attr(c) == 'append']
+            recv = apps_[0].func.value
+            if not (alias_text(es, recv).endswith('.entries') or any(
+                    n.kind == 'stmt' and isinstance(n.ast, ast.Assign) and ast.unparse(n.ast.targets[0]).endswith('.entries') and ast.unparse(n.ast.value) == ast.unparse(recv)
+                    for n in es.cfg.nodes)):
+                probs.append('the entries built are not stored into the state vector that is sent')
     sends = calls_in_ctx(es, attr='express')
     if len(sends) != 1:
         probs.append(f'{len(sends)} sync Interests per call')
     else:
         c = sends[0][1]
         kw = {k_: ast.unparse(v_) for k_, v_ in bound_args(P, es, c).items()}
-        srcs = es.sources(sends[0][0], c.args[0]) if c.args else []
+        namearg = c.args[0] if c.args else call_arg(P, es, c, 'name')
+        srcs = es.sources(sends[0][0], namearg) if namearg is not None else []
         if not any('self.base_prefix + [' in t and '.encode()' in t for t in srcs_text(srcs)):
             probs.append(f'the Interest name is {srcs_text(srcs)}, expected base_prefix + [encoded vector]')
         if kw.get('signer') != 'self.int_signer' or kw.get('no_response') != 'True':
